@@ -46,10 +46,18 @@ def gen_store_case(seed):
             nreg += 1
     known = {s: list(c07.BUILTINS) for s in range(nstores)}
     defined = {s: [] for s in range(nstores)}
+    pending = []
+    if rng.random() < 0.4:
+        # the same NEW BASE unit name declared in every store (stores sharing a registry must keep them apart)
+        bname = rng.choice(['beat', 'ub', 'cell'])
+        pending = [['base', t, bname] for t in range(nstores)]
     for _ in range(rng.randint(6, 14)):
         s = rng.randrange(nstores)
         name = rng.choice(UNAMES)
-        if rng.random() < 0.1:
+        if pending:
+            op = pending.pop(0)
+            s, name = op[1], op[2]
+        elif rng.random() < 0.1:
             op = ['base', s, name]
         else:
             e = c07.gen_uexpr(rng, [n for n in known[s] if n not in ('radian', 'steradian', 'lumen', 'lux')])
@@ -79,6 +87,7 @@ def store_oracle(case, impl):
     """frame property on the implementation's own answers"""
     bad = []
     view = {}
+    mine = {}
     based = set()
     last_edit = None
     for op, r in zip(case['ops'], impl):
@@ -87,6 +96,13 @@ def store_oracle(case, impl):
             last_edit = op
             if k == 'base' and r[0] == 'ok':
                 based.add((op[1], op[2]))
+            if k == 'base':
+                fresh_here = op[2] not in mine.setdefault(op[1], set()) and op[2] not in c07.BUILTINS
+                if fresh_here and r[0] != 'ok':
+                    bad.append(('declaring the new base unit %r in store %d fails (%r) although the name is unused in that store: '
+                                'another store\'s declaration leaked' % (op[2], op[1], r[1:3]), {'edit': op}))
+            if k in ('add', 'base') and r[0] == 'ok':
+                mine.setdefault(op[1], set()).add(op[2])
             continue
         if k == 'fmt' and op[1][0] == 'get' and r[0] == 'ok' and (op[1][1], op[1][2]) in based:
             if not (math.isclose(r[1], 1.0) and r[2] == {op[1][2]: 1}):
